@@ -10,9 +10,9 @@ CLAIMS = {
  "C01": ("opcode exhaustiveness (every emittable opcode has an advancing interpreter arm, none unfinished); rest-argument collapse resets the argument count at every call path; call-site rewrites to fixed-arity opcodes test the arity like their siblings; inliner consults the assigned flag; the walkers that collect assignments reach every evaluated child; a call is inlined only after its argument count was compared with the parameter count", "exhaustiveness / table agreement over MIR match arms + backward value-flow slices + sibling agreement + type-directed traversal completeness (every-path)"),
  "C02": ("no emittable opcode reaches a panicking JIT translator arm; scanners honour the trampoline header; only CALLPRIMITIVE bakes a global in; Int tags only on immediates; every fallible helper emission is followed by a deopt check (fixpoint over translator methods); argument counts without a handler are gated before translation; JIT helpers never panic on a primitive's Err; pending reads of a slot are all reified before it is moved; the trampoline decision precedes the frame install; one way of installing the callee's frame per helper", "table agreement + must-pass-through + interprocedural name resolution over MIR (JIT symbol table, name tables); ordering (no test reachable from an install) + sibling agreement"),
  "C03": ("&mut to shared payload only through the uniqueness-checked API, which really tests uniqueness on every path; no unchecked escape hatches; the JIT reifies all pending reads of a slot before moving it; the in-place and the copying arm of a functional update apply the same mutators to arguments from the same parameters under the same guards; a read is flagged as last use only as its scope ends or at a tail call", "who-may-call + dominator / every-path checks over MIR + compile_fail witnesses; sibling agreement over ownership arms + who-may-write with value provenance"),
- "C04": ("type-directed tracing completeness of all three markers, leaf-filter soundness, root-set sibling agreement, in-flight values rooted, unmark=>full-mark typestate, clean-slate full marks, who-may-clear mark bits", "type-directed field-coverage + must-pass-through + value flow over MIR"),
+ "C04": ("type-directed tracing completeness of all three markers, leaf-filter soundness, root-set sibling agreement, in-flight values rooted, unmark=>full-mark typestate, clean-slate full marks, who-may-clear mark bits; a pointer a marker extracts from a value is queued on every path", "type-directed field-coverage + must-pass-through + value flow over MIR"),
  "C05": ("owner-only access to the non-atomic biased counter, deallocation control-dependent on a zero test, shared word only through CAS whose retry recomputes and is free of side effects, unique access through has_unique_ref, hand-over protocol", "who-may-access + dominator checks over MIR of steel-rc + compile_fail witness"),
- "C06": ("global-index opcode table agreement between compiler, VM and every closure-body scanner; trampoline header; recycler walk complete on every path; rollback on failed builds incl. threshold; shadowed-slot value flow; free-list who-may-write", "table agreement + must-pass-through + value flow over MIR"),
+ "C06": ("global-index opcode table agreement between compiler, VM and every closure-body scanner; trampoline header; recycler walk complete on every path; rollback on failed builds incl. threshold; shadowed-slot value flow; free-list who-may-write; a redefined name gets its most recently shadowed slot back on roll-back", "table agreement + must-pass-through + value flow over MIR"),
  "C07": ("state restoration and rollback on every error exit; arity guards dominate argument indexing; argument-derived index/slice positions are length-checked; argument conversions are never unwrapped; no unfinished-code macro in a primitive; JIT helpers hand a primitive's error to the interpreter; continuation-mark typestate (C08.e/f); bounds comparisons admit only positions the guarded operation accepts (element: < len, cut: <= len), persistent-vector and SmallVec methods included", "must-pass-through + dominator + guard-idiom census over MIR; edge-relation analysis of dominating comparisons"),
  "C08": ("frame pop / bulk discard => continuation marks closed with the mark still attached (typestate); reinstating decided by the strong count only; thread fork closes all marks; handler unwinding shape; dynamic-wind / do-wind / call/cc wrapper effect order (Scheme library source); the close wrapper reaches the close on every path", "typestate / no-site-between over MIR + syntax-tree rule over parameters.scm"),
  "C09": ("tail-call opcodes never push a frame (through helpers ≤ 3); every frame push is depth-checked; CallKind->opcode class agreement; tail path and push path separated by one decision", "call-graph reachability + table agreement over MIR"),
@@ -21,11 +21,11 @@ CLAIMS = {
  "C12": ("reader recursion (call-graph cycles) reachable from the reader entry points; budget of byte-offset slicing sites in the reader; interned ids are tied to their table entry by the id; reader counters are at least 32 bits wide", "SCC over the resolved call graph + confirmed-instance census; value-flow from fetch_add + integer-width census"),
  "C13": ("syntax-rules pattern matching and renaming, structural clauses only (hygiene proper — which binding an identifier of an expansion resolves to — is NOT decided): every non-ellipsis pattern consumes exactly one form in binder and matcher; the recursive pattern walkers descend into the same variants; every template binder is recorded, renamed and flagged (sibling agreement over the renamer's binder sites); a macro case is built only after template verification, renaming and pattern mangling; an expansion starts from cleared binding tables; the expander's scope layers are balanced on every successful exit; template walkers read every child of every node; a pattern without a tail matches only uses it consumes entirely; matcher and binder count an ellipsis alike; un-introducing a binder never removes an enclosing one", "every-path / pairing / sibling-agreement / must-pass-through checks over MIR, type-directed traversal completeness"),
  "C14": ("a required module is compiled only after the compiled-module / file-metadata tables were consulted; compile_module registers the module; failed compilation restores the module table; unused-import pruning walks every module macro's templates; module identities are canonical paths; only provided macros leave a module (initialiser from the provide forms; requester-named insertions control-dependent on a membership test). NOT decided: which value names a module graph exposes", "dominator + every-path checks over MIR; field-provenance value flow + path-based guard with correlated-accessor pruning"),
- "C15": ("publish/retract pairing of the safepoint context; who may dereference a foreign thread; stop/resume reach every controller; safepoints enabled for every new thread; every park re-checks in a loop", "pairing + who-may-deref + on-a-cycle checks over MIR"),
+ "C15": ("publish/retract pairing of the safepoint context; who may dereference a foreign thread; stop/resume reach every controller; safepoints enabled for every new thread; every park re-checks in a loop; a walk over the thread registry is left only when the registry is exhausted", "pairing + who-may-deref + on-a-cycle checks over MIR"),
  "C16": ("blocking primitives only inside safepoints; native loop back-edges poll; waits have a liveness exit; the world-stop mutex is only waited for inside a safepoint; parked threads are published; the thread registry drops only dead entries", "who-may-call + derived lock set + reachability over MIR"),
- "C17": ("every dispatch cycle polls the interrupt flag and propagates it; native back-edges poll; waits break on Interrupted; only the host / thread-resume clear an interrupt, the stop protocol compare-exchanges", "every-cycle-through + who-may-call + dominators over MIR"),
+ "C17": ("every dispatch cycle polls the interrupt flag and propagates it; native back-edges poll; waits break on Interrupted; only the host / thread-resume clear an interrupt, the stop protocol compare-exchanges; interrupt publishes the state before the pause flag", "every-cycle-through + who-may-call + dominators over MIR"),
  "C18": ("every ownership cycle through the value type has an iterative Drop reached on both outcomes of the shared-buffer borrow; no unguarded call-graph cycle in eq/hash/print; every mutable-cell equality arm consults the visited set; collector/printer key agreement; every equality arm one side of which is a mutable cell consults the visited set", "type-ownership graph + SCC + every-path checks over MIR"),
- "C19": ("root work-list empty at exit of mark; mark bits reset before each full mark; counts recomputed; host root freed on token drop; deferred drops merged; redefined globals hand over their previous slot; compaction forced by the growth counter", "must-pass-through + pairing + decision-provenance over MIR + compile_fail witness"),
+ "C19": ("root work-list empty at exit of mark; mark bits reset before each full mark; counts recomputed; host root freed on token drop; deferred drops merged; redefined globals hand over their previous slot; compaction forced by the growth counter; the host-root entry removed is the one the token names", "must-pass-through + pairing + decision-provenance over MIR + compile_fail witness"),
  "C20": ("no unguarded narrowing/sign-changing cast in conversions; lent-reference who-may-call, unconditional release and RAII pairing; every registered-function wrapper reads each argument position; what a type converts into it converts back from; tuples only from lists of their length", "cast census with guard discharge + who-may-call over MIR + compile_fail witnesses; returned-variant analysis of conversion pairs + constant-index coverage"),
 }
 NA = {
